@@ -346,6 +346,7 @@ type LoopSpec struct {
 	Unroll     int  // >0: unroll at most this many iterations
 	Exact      bool // unroll declared exact (unwinding obligation must discharge)
 	Decreases  *Clause
+	Increases  *Clause // progress measure: strictly larger after every iteration
 }
 
 type Param struct{ Name, Type string }
@@ -689,6 +690,12 @@ func (cs *ContractSet) addClause(c *FuncContract, kw, text, file string, line in
 				return err
 			}
 			ls.Decreases = cl
+		case "increases":
+			cl, err := mk("increases", rest)
+			if err != nil {
+				return err
+			}
+			ls.Increases = cl
 		default:
 			return fmt.Errorf("unknown loop clause %q", fs[1])
 		}
